@@ -19,7 +19,7 @@ OPS_BY_CLASS = {9: ["Multiply", "ShiftLeft", "ShiftRight"], 8: ["Divide"],
                 7: ["And", "Eq", "NotEq", "Great", "Less", "GreatEq", "LessEq"],
                 6: ["Or", "Xor"], 5: ["Plus"], 4: ["Minus"]}
 CMPS = ["Great", "Less", "Eq", "GreatEq", "LessEq", "NotEq"]
-VAL_NAMES = ["x", "y", "z", "x.0", "x.1", "a.b.c", ".", "", "y.007", "z.+5", "v", "w", "x.2", "y.0"]
+VAL_NAMES = ["x", "y", "z", "x.0", "x.1", "a.b.c", ".", "", "y.007", "z.+5", "v", "w", "x.2", "y.0", "M"]
 CONST_NAMES = ["K", "C1", "x", "y", "M.0", "z"]
 FN_NAMES = ["f", "g", "h", "main", "f.0", "k"]
 STRUCT_NAMES = ["S", "T", "P.q", "S.0", "bool", "i32"]
@@ -1287,6 +1287,20 @@ def gen_typeeq():
                 fns.append(["fn", g.ident("f"), ["params"], i32,
                             ["body", ["if", ["ifs", cond, ["ifbody"], ["noelse"], ["noelif"]]], one]])
             out.append((["program"] + decls + fns, {"stream": "typeeq", "pair": k, "site": site}))
+    # bare literals of another (numeric) type as initialiser / assigned value: no implicit conversion
+    lits = [("u8", ("i32", 1)), ("i64", ("i32", 1)), ("i32", ("u8", 1)), ("bool", ("i32", 1)), ("f32", ("f64", 0x3FE0000000000000)),
+            ("f32", ("f64", 0x7FEFFFFFFFFFFFFF)), ("f64", ("f32", 0x3F800000)), ("u64", ("i8", -1)), ("i32", ("i32", 1))]
+    for k, (et, (lt, lv)) in enumerate(lits):
+        for site in ("let", "bind"):
+            g = Gen(0)
+            one = ["ret", ["expr", ["prim", ["pv", "i32", 1]]]]
+            litx = ["expr", ["prim", ["pv", lt, lv]]]
+            if site == "let":
+                body = [["let", g.ident("x"), 0, ["ty", ["prim", et]], litx], one]
+            else:
+                body = [["let", g.ident("y"), 1, ["noty"], ["expr", ["ext", ["prim", et], 1]]], ["bind", g.ident("y"), litx], one]
+            out.append((["program", ["fn", g.ident("f"), ["params"], ["prim", "i32"], ["body"] + body]],
+                        {"stream": "typeeq", "literal": k, "site": site}))
     return out
 
 
@@ -1419,6 +1433,30 @@ def gen_deep():
     out.append((["program",
                  ["fn", g.ident("id"), ["params", [g.ident("a"), i32]], i32, ["body", ["ret", ["expr", ["name", g.ident("a")]]]]],
                  ["fn", g.ident("f"), ["params"], i32, ["body", ["ret", e]]]], {"stream": "deep", "calls": 60}))
+    # a long FLAT else-if chain (90 arms and a final else: siblings, not nesting), each arm declaring a value
+    g = Gen(3)
+    cmpc = lambda k: ["logic", ["lc", ["expr", ["name", g.ident("op")]], "Eq", ["expr", ["prim", ["pv", "i32", k]]]]]
+    tail = None
+    for k in range(89, -1, -1):
+        arm = ["ifs", cmpc(k), ["ifbody", ["let", g.ident("r"), 0, ["noty"], ["expr", ["prim", ["pv", "i32", k]]]]],
+               (["else", ["ifbody", ["let", g.ident("r"), 0, ["noty"], lit()]]] if tail is None else ["noelse"]),
+               (["noelif"] if tail is None else ["elif", tail])]
+        tail = arm
+    out.append((["program", ["fn", g.ident("dispatch"), ["params", [g.ident("op"), i32]], i32,
+                             ["body", ["if", tail], ["ret", ["expr", ["name", g.ident("op")]]]]]],
+                {"stream": "deep", "elif_chain": 90}))
+    # a value read 80 blocks below its declaration, next to a global constant of the same name and type
+    g = Gen(4)
+
+    def nest_read(d):
+        if d == 0:
+            return [["ret", ["expr", ["name", g.ident("limit")]]]]
+        return [["if", ["ifs", ["single", ["expr", ["prim", ["pv", "bool", 1]]]], ["ifbody"] + nest_read(d - 1), ["noelse"], ["noelif"]]]]
+    out.append((["program", ["const", g.ident("limit"), i32, ["cexpr", ["cval", ["pv", "i32", 1]]]],
+                 ["fn", g.ident("f"), ["params"], i32,
+                  ["body", ["let", g.ident("limit"), 0, ["ty", i32], ["expr", ["prim", ["pv", "i32", 7]]]]] + nest_read(80)
+                  + [["ret", ["expr", ["name", g.ident("limit")]]]]]],
+                {"stream": "deep", "read_depth": 80}))
     return out
 
 
